@@ -24,6 +24,7 @@
 -/
 import IgrisModel.C08.Lemmas
 import IgrisModel.C08.More
+import IgrisModel.C08.Linear
 namespace Igris.C08
 open Igris.Proto
 
@@ -1600,6 +1601,48 @@ example : strlen (ofBufs [(8, [97#8, 98#8, 99#8, 0#8]), (12, [1#8, 0#8])]) 8 10 
 example : strncasecmp (ofBufs [(8, [97#8, 66#8, 0#8]), (32, [65#8, 99#8, 0#8])]) 8 32 1 = some 0 ∧
     strncasecmp (ofBufs [(8, [97#8, 66#8, 0#8]), (32, [65#8, 99#8, 0#8])]) 8 32 2 = some (-1) ∧
     strcasestr (ofBufs [(8, [120#8, 65#8, 98#8, 0#8]), (32, [97#8, 66#8, 0#8])]) 8 32 10 = some (some 9) := by decide
+
+/-! ### round 3b: the LINEAR-TIME FORM of the model (Fast.lean) IS the model.  `AMem` is an array of cells,
+`absA c` the partial memory it stands for.  The ten functions that write O(n) bytes are defined a second time
+over `AMem` - the text of Model.lean with `rd`/`wr` replaced by the O(1) `rdA`/`wrA` - and these theorems say that
+the array version faults exactly when the literal model faults on `absA c`, returns the same value, and ends in
+an array that stands for the literal model's resulting memory.  The driver runs the array versions on the
+64 KiB / 300 KiB inputs of the writers: by these theorems that is a run of the literal model (closure memory:
+O(n^2), out of reach), not of a second specification. -/
+
+theorem memcpy_linear_form (c : AMem) (d s n : Nat) :
+    (memcpyA c d s n).map absP = memcpy (absA c) d s n := (memcpy_absA c d s n).symm
+theorem memmove_linear_form (c : AMem) (d s n : Nat) :
+    (memmoveA c d s n).map absP = memmove (absA c) d s n := (memmove_absA c d s n).symm
+theorem memset_linear_form (c : AMem) (d : Nat) (x : Int) (n : Nat) :
+    (memsetA c d x n).map absP = memset (absA c) d x n := (memset_absA c d x n).symm
+theorem strcpy_linear_form (c : AMem) (d s fuel : Nat) :
+    (strcpyA c d s fuel).map absP = strcpy (absA c) d s fuel := (strcpy_absA c d s fuel).symm
+theorem strncpy_linear_form (c : AMem) (d s n : Nat) :
+    (strncpyA c d s n).map absP = strncpy (absA c) d s n := (strncpy_absA c d s n).symm
+theorem strlcpy_linear_form (c : AMem) (d s size fuel : Nat) :
+    (strlcpyA c d s size fuel).map absP = strlcpy (absA c) d s size fuel := (strlcpy_absA c d s size fuel).symm
+theorem strcat_linear_form (c : AMem) (d s fuel : Nat) :
+    (strcatA c d s fuel).map absP = strcat (absA c) d s fuel := (strcat_absA c d s fuel).symm
+theorem strncat_linear_form (c : AMem) (d s n fuel : Nat) :
+    (strncatA c d s n fuel).map absP = strncat (absA c) d s n fuel := (strncat_absA c d s n fuel).symm
+theorem strdup_linear_form {malloc : Alloc} {mallocA : AllocA} (hm : AllocSim malloc mallocA) (c : AMem) (s fuel : Nat) :
+    (strdupA mallocA c s fuel).map absP = strdup malloc (absA c) s fuel := (strdup_absA hm c s fuel).symm
+theorem strndup_linear_form {malloc : Alloc} {mallocA : AllocA} (hm : AllocSim malloc mallocA) (c : AMem) (s size : Nat) :
+    (strndupA mallocA c s size).map absP = strndup malloc (absA c) s size := (strndup_absA hm c s size).symm
+/-- the allocator of the driver (a fresh block filled with 0xA5 at a fixed address, or NULL) in its two forms -/
+theorem driver_malloc_linear_form (fail : Bool) (base : Nat) : AllocSim (mallocFn fail base) (mallocArr fail base) :=
+  mallocArr_sim fail base
+/-- the two primitives: reading a cell, and writing one (fault on an unmapped cell included) -/
+theorem rd_wr_linear_form (c : AMem) (a : Nat) (v : Byte) :
+    rdA c a = rd (absA c) a ∧ (wrA c a v).map absA = wr (absA c) a v := ⟨rfl, (wr_absA c a v).symm⟩
+/-- `absA` is onto the finitely mapped memories the driver builds: an array and the memory it stands for, and a
+memmove with overlap run in both forms -/
+example : (memmoveA #[none, some 1#8, some 2#8, some 3#8, some 4#8, none] 2 1 3).map (fun r => (r.1, r.2)) =
+    some (#[none, some 1#8, some 1#8, some 2#8, some 3#8, none], 2) := by decide
+example : (memmove (absA #[none, some 1#8, some 2#8, some 3#8, some 4#8, none]) 2 1 3).map (fun r => (readOut r.1 1 4, r.2)) =
+    some (some [1#8, 1#8, 2#8, 3#8], 2) := by decide
+example : memmoveA #[none, some 1#8, some 2#8, some 3#8, some 4#8, none] 3 1 3 = none := by decide
 
 /-- the class table is not degenerate: 26 + 26 letters, 10 digits, 6 white-space characters, 95 printing ones -/
 example : ((List.range 128).filter fun c => inClass (c : Nat) CL_U).length = 26 ∧
